@@ -21,7 +21,7 @@ PROPS_MODULES = ['CfVerif.Props.C02']
 DRIVER = 'Driver/C02.lean'
 REQUIRED_THEOREMS = ['CfVerif.C02.' + n for n in (
     'trace_wf', 'connected_only_when_tables_complete', 'fully_only_when_all_values', 'sync_open_returns',
-    'fault_reaches_disconnected', 'link_error_outputs', 'reconnectable', 'repaired_D1', 'repaired_D21',
+    'fault_reaches_disconnected', 'link_error_outputs', 'reconnectable', 'handshake_completes', 'repaired_D1', 'repaired_D21',
     'sync_open_hangs_counterexample', 'stale_fetcher_counterexample',
     'M2.repaired_D2_D3_D4_D22', 'M2.no_thread_death', 'M2.no_deadlock', 'M2.disconnected_in_bounded_steps',
     'M2.send_lock_deadlock_counterexample', 'M2.ping_self_join_counterexample', 'M2.dispatcher_death_counterexample',
@@ -43,7 +43,7 @@ RULE = ('M1: op scripts on the real Crazyflie+SyncCrazyflie against the simulate
         '(blocked?, WF verdict Lean vs Python twin).  M2: 10 thread scenarios x seeded random / guided schedules of the real threads under '
         'vsched, failure kinds vs the verdict of the Lean thread model.  distinct+non-trivial = distinct (case kind, device, executed script) '
         'resp. (scenario, seed)')
-EXTRA_MODULES = ['CfVerif.Model.C02Sync', 'CfVerif.Proofs.C02Sync']
+EXTRA_MODULES = ['CfVerif.Model.C02Sync', 'CfVerif.Proofs.C02Sync', 'CfVerif.Proofs.C02Live']
 
 F_CF = 'cflib/crazyflie/__init__.py'
 F_SYNC = 'cflib/crazyflie/syncCrazyflie.py'
@@ -678,6 +678,14 @@ def gen_m1_cases(ctx):
     rng = ctx.rng
     thorough = ctx.tier == 'thorough'
     cases = []     # (name, dev, script)
+    # (0) the corpus: minimised witnesses / past disagreements, always first
+    import glob
+    import json
+    import os
+    for f in sorted(glob.glob(os.path.join(os.path.dirname(os.path.dirname(os.path.abspath(__file__))), 'corpus', 'c02', '*.json'))):
+        c = json.load(open(f))
+        d = c['dev']
+        cases.append(('corpus', (bool(d[0]), d[1], d[2], tuple(bool(b) for b in d[3])), [tuple(o) for o in c['script']]))
     devs = [(True, 2, 1, (True, False)), (True, 0, 0, ()), (False, 1, 0, (False,)), (True, 1, 2, (True, True, False))]
     if thorough:
         devs += [(True, 3, 3, (False, True, False, True)), (False, 0, 2, (False, False)), (True, 5, 1, (True,) * 3)]
@@ -726,7 +734,7 @@ def correspond_m2(ctx):
     """M2: for every scenario the real threads run under the virtual scheduler on several schedules; the failure kinds
     observed must be allowed by the verdict of the Lean thread model built from the regenerated repair flags
     (model says no death / goal always reachable  =>  no run may show a dead thread / a hang / a leaked lock)."""
-    seeds = 12 if ctx.tier == 'thorough' else 3
+    seeds = 40 if ctx.tier == 'thorough' else 3
     found = run_m2(ctx, seeds, count=ctx.count)
     replies = ctx.lean(DRIVER, ['m2 ' + sc[3] for sc in M2_SCENARIOS])
     for (name, base, kind, model_sc), rep in zip(M2_SCENARIOS, replies):
@@ -805,7 +813,7 @@ def m2_key(name, kind, what):
 def search_m2(ctx):
     def witness(name, kind, what, inp):
         ctx.witness(m2_key(name, kind, what), 'real threads under the virtual scheduler, scenario %s: %s' % (name, what), inp)
-    run_m2(ctx, 6 if ctx.tier == 'thorough' else 2, witness=witness)
+    run_m2(ctx, 40 if ctx.tier == 'thorough' else 3, witness=witness)
 
 
 def search(ctx):
@@ -1128,4 +1136,19 @@ def run_m2(ctx, seeds, witness=None, count=None):
                     if witness:
                         witness(name, 'blocking-under-send-lock', conf[0], {'scenario': name, 'policy': kind, 'seed': seed})
             found[name] = kinds
+        if ctx.tier == 'thorough':
+            # preemption-bounded depth-first exploration of two small scenarios (every schedule with <= 1 preemption, capped)
+            for name, base in (('close-early', {'user': 'close', 'when': 'connected', 'reconnect': False}),
+                               ('driver', {'fault': 'driver', 'reconnect': False})):
+                cfg = dict(base)
+                ex = s.explore(m2_main(cfg, vsched), max_preemptions=1, max_runs=250)
+                n = 0
+                for res in ex:
+                    n += 1
+                    for k, what in m2_verdict(res, cfg):
+                        found[name].add(k)
+                        if witness:
+                            witness(name, k, what, {'scenario': name, 'policy': 'dfs', 'choices': list(res.choices)[:400]})
+                if count:
+                    count('m2-dfs:' + name, n)
     return found
